@@ -29,6 +29,7 @@ if TYPE_CHECKING:
 logger = logging.getLogger(__name__)
 
 LITERAL_CRYPT = LIT("Crypt")
+LITERAL_XREF = LIT("XRef")
 
 # Abbreviation of Filter names in PDF 4.8.6. "Inline Images"
 LITERALS_FLATE_DECODE = (LIT("FlateDecode"), LIT("Fl"))
@@ -145,6 +146,11 @@ def decipher_all(decipher: DecipherCallable, objid: int, genno: int, x: object) 
     elif isinstance(x, dict):
         for k, v in x.items():
             x[k] = decipher_all(decipher, objid, genno, v)
+    elif isinstance(x, PDFStream):
+        # Strings in a stream dictionary are encrypted like any other string.
+        # Only cross-reference streams are exempt from encryption.
+        if x.attrs.get("Type") is not LITERAL_XREF:
+            decipher_all(decipher, objid, genno, x.attrs)
     return x
 
 
